@@ -323,7 +323,7 @@ MUTANTS = [
          new="""                // wait for the existing backward projection to finish
                 notified.await;
 
-                if caller_information.timestamp() == caller_information.timestamp() {
+                if std::hint::black_box(true) {
                     return None;
                 }
                 let this = engine.get_read_snapshot::<Q>(caller_information_query_id).await;
